@@ -209,7 +209,8 @@ def analyse(ctx, repo, prop):
               "cells (k,o) and (k+1,o) are paired by the two off-diagonals at +n_o and -n_o", where, "diags(my_diags, offsets=+-n_o)",
               witness=f"offsets {[x.pretty() if x is not None else '?' for x in offs]}")
     v0, v1 = dgs[0].args[0], dgs[1].args[0]
-    same_vals = (v0 is v1) or vkey(v0) == vkey(v1) or (isinstance(v0, ListV) and isinstance(v1, ListV) and items_str(v0.items) == items_str(v1.items))
+    same_vals = (v0 is v1) or vkey(v0) == vkey(v1) or (isinstance(v0, ListV) and isinstance(v1, ListV) and items_str(v0.items) == items_str(v1.items)) \
+        or same_grid(v0, v1) or same_grid(T.to_grid(interp, v0) if isinstance(v0, ListV) else v0, T.to_grid(interp, v1) if isinstance(v1, ListV) else v1)
     ctx.check(same_vals, "MIRROR", f"{tag}.ray.symmetric", "both off-diagonals carry the same values (symmetric radial entries)", where,
               "same_ray_neighbours += diags(my_diags, offsets=-n_o)", witness=f"{vstr(v0)[:150]} vs {vstr(v1)[:150]}")
     # values along the diagonal: position m = k*n_o + o
